@@ -125,12 +125,11 @@ impl FileDataSequenceHeader {
     }
 
     /// Verifies that the two headers correspond to the same file. Checks that
-    /// the file hashes are the same and that the number of entries are the
-    /// same.
+    /// the file hashes are the same.  The number of entries may differ: the same
+    /// file is segmented differently depending on what it was deduplicated against.
     #[inline]
     pub fn verify_same_file(header1: &Self, header2: &Self) {
         debug_assert_eq!(header1.file_hash, header2.file_hash, "hashes don't match");
-        debug_assert_eq!(header1.num_entries, header2.num_entries, "num entries for same hash don't match");
     }
 
     /// Compares the flags of headers A and B to determine if either bitmap is a superset
@@ -431,8 +430,11 @@ impl MDBFileInfo {
     pub fn merge_from(&mut self, other: &Self) -> Result<(), MDBShardError> {
         FileDataSequenceHeader::verify_same_file(&self.metadata, &other.metadata);
         if self.contains_verification() != other.contains_verification() && other.contains_verification() {
-            // self doesn't have verification. Copy from other
+            // self doesn't have verification. Copy from other, together with the segments
+            // the verification entries belong to.
             self.metadata.file_flags |= MDB_FILE_FLAG_WITH_VERIFICATION;
+            self.metadata.num_entries = other.metadata.num_entries;
+            self.segments.clone_from(&other.segments);
             self.verification.clone_from(&other.verification);
         }
         if self.contains_metadata_ext() != other.contains_metadata_ext() && other.contains_metadata_ext() {
